@@ -117,6 +117,28 @@ Section C19Zones.
     - exact (layout_to_rfc3339_zoned off_of_instant off_of_wall t h f to H).
   Qed.
 
+  (* ---- the same WITHOUT the guard (what remains true inside known finding F23): the text is
+     the instant's reading in the result zone followed by the zone offset with its seconds part
+     cut off toward zero - so sign, hours and minutes are the offset's own - and the instant the
+     text denotes differs from the input instant by exactly that seconds part, i.e. by less than
+     60 s.  Nothing more than the seconds part is ever lost. ---- *)
+  Theorem rfc3339_within_seconds_part : forall t fromTZ toTZ, toTZ <> TzBad ->
+    let off := off_at (match toTZ with TzZone z => LZone z | _ => g_loc t end) (g_sec t) in
+    date_time_to_rfc3339 off_of_instant off_of_wall (Some (POk t true)) fromTZ toTZ
+      = RVal (ObsZoned (g_sec t + off) (off - Z.rem off 60))
+    /\ obs_instant (ObsZoned (g_sec t + off) (off - Z.rem off 60)) = Some (g_sec t + Z.rem off 60)
+    /\ Z.abs (Z.rem off 60) < 60
+    /\ (0 <= off -> 0 <= off - Z.rem off 60 <= off) /\ (off <= 0 -> off <= off - Z.rem off 60 <= 0).
+  Proof. exact (to_rfc3339_zoned_exact off_of_instant off_of_wall). Qed.
+
+  Theorem epoch_to_date_time_text : forall n u tz l,
+    match tz with [] => l = LUTC | [Some z] => l = LZone z | _ => False end ->
+    let s := sec (from_epoch u n) in
+    let off := off_at l s in
+    epoch_to_date_time off_of_instant (Some (Some n)) (Some u) tz
+      = RVal (ObsZoned (s + off) (off - Z.rem off 60)).
+  Proof. exact (epoch_to_date_time_exact off_of_instant). Qed.
+
   (* ---- dateTimeToEpoch on input with zone is the exact Unix time, fromTZ ignored; and
      epochToDateTimeRFC3339 applied to its result denotes the same instant (to the second) ---- *)
   Theorem epoch_of_zoned_input : forall t fromTZ u,
@@ -205,6 +227,14 @@ Example tz_logic_instance :
   /\ date_time_to_rfc3339 oi ow (Some (POk (mkG 2000 7 LUTC) false)) TzEmpty TzEmpty
     = RVal (ObsWall 2000).
 Proof. repeat split; vm_compute; reflexivity. Qed.
+
+(* Africa/Monrovia before 1972 is at -00:44:30: the text carries -00:44 (sign kept) and denotes
+   an instant 30 s later than the input *)
+Example negative_sub_hour_offset_instance :
+  date_time_to_rfc3339 (fun _ _ => -2670) (fun _ _ => -2670) (Some (POk (mkG 63071999 0 LUTC) true)) TzEmpty (TzZone 1%N)
+  = RVal (ObsZoned (63071999 - 2670) (-2640))
+  /\ obs_instant (ObsZoned (63071999 - 2670) (-2640)) = Some (63071999 - 30).
+Proof. split; vm_compute; reflexivity. Qed.
 
 (* a blank (non-empty, all-space) fromTZ does not bind a zone but marks the result as zoned:
    "2020-01-01T00:00:00" with fromTZ " " prints "2020-01-01T00:00:00Z" (observed on the code) *)
